@@ -318,7 +318,7 @@ func visitInstr(fr *frame, instr ssa.Instruction) continuation {
 		fr.env[instr] = makeMap(instr.Type().Underlying().(*types.Map).Key(), 0)
 
 	case *ssa.Range:
-		fr.env[instr] = rangeIter(fr.get(instr.X), instr.X.Type())
+		fr.env[instr] = rangeIter(fr.get(instr.X), instr.X.Type(), fr.i.w != nil && fr.i.w.mapDesc)
 
 	case *ssa.Next:
 		fr.env[instr] = fr.get(instr.Iter).(iter).next(fr)
